@@ -7,4 +7,6 @@ CONSTANTS
   PingMul = 2
   MaxErrInf = 1
   MaxErrPing = 0
+  MaxBurst = 11
 INVARIANT Cadence
+INVARIANT Resume
